@@ -2192,5 +2192,5 @@ func joinSchedules(w *worker, res *vh.Result) error {
 }
 
 func main() {
-	vh.Main(map[string]vh.Mode{"replay": replay, "probe": probe, "windows": windows, "presence": presence, "hubsub": hubsub})
+	vh.Main(map[string]vh.Mode{"replay": replay, "probe": probe, "windows": windows, "presence": presence, "hubsub": hubsub, "limits": limits})
 }
